@@ -335,6 +335,7 @@ func keyTuple(m map[string]any, ks []OrderKey) string {
 func (p *c05) RunCase(i int) *core.CaseResult {
 	defer withNoise()()
 	r := &core.CaseResult{}
+	defer withUsage(r, "C05")()
 	c := &p.cases[i]
 	sql := p.sqlOf(c)
 	ks := keysString(c.keys)
